@@ -1147,7 +1147,7 @@ type attributeCacheKey struct {
 
 // attributeCacheEntry represents a cached attribute lookup result
 type attributeCacheEntry struct {
-	fieldIndex  int       // Index of the field (-1 if not a field)
+	fieldIndex  []int     // Index path of the field, through embedded structs (nil if not a field)
 	isMethod    bool      // Whether this is a method
 	methodIndex int       // Index of the method (-1 if not a method)
 	ptrMethod   bool      // Whether the method is on the pointer type
@@ -1316,6 +1316,11 @@ func (ctx *RenderContext) getAttribute(obj interface{}, attr string) (interface{
 		objValue = objValue.Elem()
 	}
 
+	// Maps of any key and value type: the attribute is a key
+	if objValue.Kind() == reflect.Map {
+		return ctx.getItem(obj, attr)
+	}
+
 	// Only use caching for struct types
 	if objValue.Kind() != reflect.Struct {
 		// Instead of returning an error for non-struct types, return nil
@@ -1366,7 +1371,7 @@ func (ctx *RenderContext) getAttribute(obj interface{}, attr string) (interface{
 
 			// Create a new entry with current timestamp
 			entry = attributeCacheEntry{
-				fieldIndex:  -1,
+				fieldIndex:  nil,
 				methodIndex: -1,
 				lastAccess:  time.Now(),
 				accessCount: 1,
@@ -1375,7 +1380,9 @@ func (ctx *RenderContext) getAttribute(obj interface{}, attr string) (interface{
 			// Look for a field
 			field, found := objType.FieldByName(attr)
 			if found {
-				entry.fieldIndex = field.Index[0] // Assuming single-level field access
+				// The whole index path: a field promoted from an embedded struct
+				// lies below the embedded field
+				entry.fieldIndex = field.Index
 			}
 
 			// Look for a method on the value
@@ -1404,8 +1411,18 @@ func (ctx *RenderContext) getAttribute(obj interface{}, attr string) (interface{
 	// Use the cached lookup information to get the attribute
 
 	// Try field access first
-	if entry.fieldIndex >= 0 {
-		field := objValue.Field(entry.fieldIndex)
+	if entry.fieldIndex != nil {
+		field := objValue
+		for _, i := range entry.fieldIndex {
+			// Step through an embedded pointer; a nil one has no fields to offer
+			if field.Kind() == reflect.Ptr {
+				if field.IsNil() {
+					return nil, nil
+				}
+				field = field.Elem()
+			}
+			field = field.Field(i)
+		}
 		if field.IsValid() && field.CanInterface() {
 			return field.Interface(), nil
 		}
